@@ -32,7 +32,8 @@ class World:
     required_probes = ["start_nonzero", "empty_range", "range_shorter_than_size", "size_not_dividing",
                        "inactive_level2", "refused_outside_region", "collective_left_early",
                        "rendezvous_send", "library_rates_distributed", "library_tensor_distributed",
-                       "negative_length", "single_rank", "return_index_list", "return_index_array"]
+                       "negative_length", "single_rank", "return_index_list", "return_index_array",
+                       "library_tensor_created_and_converted_at_different_levels"]
     required_faults = ["stalled_rank", "start_skew"]
     components = {
         "real": ["quantarhei.core.parallel: DistributedConfiguration, start/close_parallel_region, block_distributed_range/list/array, "
@@ -89,8 +90,12 @@ class World:
                                "nest": rng.choice([0, 0, 1]) if top == 0 else rng.choice([0, 1])})
             else:
                 phases.append({"op": "tensor", "as_ops": rng.random() < 0.5, "nest": 0})
-        if N <= 4 and rng.random() < 0.04:
-            phases = phases[:2] + [{"op": "tensor", "as_ops": rng.random() < 0.5, "nest": 0}]
+        if N <= 4 and rng.random() < 0.06:
+            if rng.random() < 0.5:
+                phases = phases[:2] + [{"op": "tensor", "as_ops": rng.random() < 0.5, "nest": 0}]
+            else:
+                # operator form created in one nesting of parallel regions, converted to a tensor in another
+                phases = phases[:2] + [{"op": "tensor_split", "nest": 0, "nest_create": rng.choice([0, 1]), "nest_convert": rng.choice([0, 1])}]
             top = 0
         weights = [1.0] * N
         stalled = []
@@ -131,6 +136,9 @@ class World:
                 refs[pi] = self._rates(ph, None)
             elif ph["op"] == "tensor":
                 refs[pi] = self._tensor(ph, self._system())
+                twins[pi] = [self._system() for _ in range(N)]
+            elif ph["op"] == "tensor_split":
+                refs[pi] = self._tensor({"as_ops": False}, self._system())
                 twins[pi] = [self._system() for _ in range(N)]
 
         srng = random.Random(program["sched_seed"])
@@ -208,6 +216,21 @@ class World:
                     elif kind == "tensor":
                         rec["result"] = world._tensor(ph, twins[pi][r])
                         acc = None
+                    elif kind == "tensor_split":
+                        from quantarhei.qm import RedfieldRelaxationTensor
+                        agg = twins[pi][r]
+                        for _ in range(ph["nest_create"]):
+                            start_parallel_region()
+                        RT = RedfieldRelaxationTensor(agg.get_Hamiltonian(), agg.get_SystemBathInteraction(), as_operators=True)
+                        for _ in range(ph["nest_create"]):
+                            close_parallel_region()
+                        for _ in range(ph["nest_convert"]):
+                            start_parallel_region()
+                        RT.convert_2_tensor()
+                        for _ in range(ph["nest_convert"]):
+                            close_parallel_region()
+                        rec["result"] = numpy.asarray(RT.data).copy()
+                        acc = None
                     if acc is not None:
                         cfg = distributed_configuration()
                         if ph["red"] == "allreduce":
@@ -250,7 +273,7 @@ class World:
         for pi, ph in enumerate(phases):
             kind = ph["op"]
             recs = [results[r][pi] for r in range(N)]
-            inner = 1 if kind in ("rates", "tensor") else 0
+            inner = 1 if kind in ("rates", "tensor", "tensor_split") else 0
             if N > 1:
                 lvl = top + ph["nest"] + inner
             else:
@@ -342,8 +365,11 @@ class World:
                         ph["red"], bool(ph.get("ri")), bool(ph.get("collect")))
             else:
                 ref = refs[pi]
+                if kind == "tensor_split":
+                    ctx.probe("library_tensor_created_and_converted_at_different_levels") if ph["nest_create"] != ph["nest_convert"] else None
+                    active = (N > 1) and (top + ph["nest_create"] + 1 == 1 or top + ph["nest_convert"] + 1 == 1)
                 if active:
-                    ctx.probe("library_%s_distributed" % kind)
+                    ctx.probe("library_%s_distributed" % ("tensor" if kind == "tensor_split" else kind))
                 for r in range(N):
                     res = recs[r]["result"]
                     check(res is not None and close(res, ref, rtol=1e-12), "library-loop-equals-serial",
